@@ -1,4 +1,4 @@
-import MiniconfVerif.Lemmas.Meta
+import MiniconfVerif.Lemmas.PackedPath
 
 /-! # C06 — type-level metadata is exact and sufficient for sizing key buffers
 
@@ -16,6 +16,52 @@ theorem depth_exact (s : Schema) (h : s.WF) :
     (∀ p ∈ s.leaves, p.length ≤ s.meta.maxDepth) ∧ (∃ p ∈ s.leaves, p.length = s.meta.maxDepth) := by
   rw [meta_depth s h]
   exact ⟨fun p hp => leaves_len_le s p hp, leaves_depth_attained s h⟩
+
+/-- the maximum packed bit width is the bit weight (sum of the per-level field widths) of some
+leaf's key and no leaf's key is wider -/
+theorem bits_exact (s : Schema) (h : s.WF) :
+    (∀ p ∈ s.leaves, pathW Wbits s p ≤ s.meta.maxBits) ∧ (∃ p ∈ s.leaves, pathW Wbits s p = s.meta.maxBits) := by
+  rw [meta_bits]
+  exact ⟨fun p hp => pathW_le Wbits p s hp, pathW_attained Wbits s.maxDepth s (Nat.le_refl _) h⟩
+
+/-- the maximum summed key length in bytes (names, or decimal digits of the index; separators
+not counted) is attained by some leaf and exceeded by none -/
+theorem length_exact (s : Schema) (h : s.WF) :
+    (∀ p ∈ s.leaves, pathW Wlen s p ≤ s.meta.maxLength) ∧ (∃ p ∈ s.leaves, pathW Wlen s p = s.meta.maxLength) := by
+  rw [meta_len]
+  exact ⟨fun p hp => pathW_le Wlen p s hp, pathW_attained Wlen s.maxDepth s (Nat.le_refl _) h⟩
+
+/-- **Consequently**: an index array with `max_depth` slots holds the key of every node — no
+capacity error, the key is the node's index path — and when `max_bits` fits, a packed word
+holds the key of every node, using at most `max_bits` bits. -/
+theorem buffers_suffice (s : Schema) (hwf : s.WF) (hsm : s.Small) (p : List Nat) (t : Schema) (ht : s.at? p = some t) :
+    tgtAt s (.idx [] s.meta.maxDepth (2 ^ 64 - 1)) p = .idx p s.meta.maxDepth (2 ^ 64 - 1) ∧
+    Accepts s (.idx [] s.meta.maxDepth (2 ^ 64 - 1)) ∧
+    (s.meta.maxBits ≤ 63 → ∃ w, Packed.pushAll Gen.Packed.EMPTY (packFields s p) = some w ∧
+      (Gen.Packed.len w).toNat ≤ s.meta.maxBits ∧
+      ∃ k, s.transcode (.list (intKeys p)) (.packed Gen.Packed.EMPTY) = (k, .packed w)) := by
+  have har : ∀ q u, s.at? q = some u → u.arity ≤ (2 ^ 64 - 1) + 1 := fun q u h => by
+    have := hsm q u h; omega
+  have hd : s.maxDepth ≤ s.meta.maxDepth := by rw [meta_depth s hwf]; exact Nat.le_refl _
+  refine ⟨tgtAt_idx s _ _ hd har p t ht, accepts_idx s _ _ hd har, ?_⟩
+  intro hmax
+  have hle := node_bits_le_max s t hwf p ht
+  have hV0 : PackedWord.Valid 0 0 := by constructor <;> decide
+  have htb := totalBits_eq_pathW p s t hwf ht
+  obtain ⟨w, hw1, hw2, hok⟩ := cbAlong_packed p s t 0 0 hwf hsm ht hV0 (by rw [htb]; simp; omega)
+  obtain ⟨w2, hw3, _, hlen⟩ := PackedWord.pushAll_popAll (packFields s p) 0 0 [] [] hV0 hok (by rw [htb]; simp; omega)
+    (by rw [← PackedWord.empty_repr]; rfl)
+  rw [hw1] at hw3
+  cases hw3
+  rw [← PackedWord.empty_repr] at hw1 hw2
+  refine ⟨w, hw1, by rw [hlen, htb]; simp; exact hle, ?_⟩
+  have hsrc : KeySrc.list (intKeys p) = idxSrc true p := by simp [idxSrc]
+  simp only [Schema.transcode, hsrc, traverse_eq_idxWalk Target.cbP true _ s _ hwf hsm]
+  have := idxWalk_prefix Target.cbP true p s t [] (.packed Gen.Packed.EMPTY, false) (.packed w, false) ht hw2
+  rw [List.append_nil] at this
+  rw [this]
+  unfold idxWalk
+  cases hl : t.isLeaf <;> simp
 
 /-! ## non-vacuity -/
 def ex : Schema := .node (.named ["foo", "bar", "baz"]) [.leaf, .array 3 .leaf, .leaf]
